@@ -782,3 +782,11 @@ func Mark() {
 		cur.marked = true
 	}
 }
+
+// Unmark ends the explored part of a body: with Config.BranchAfterMark no branching happens after it
+// (the rest runs under the default schedule only).
+func Unmark() {
+	if cur != nil {
+		cur.marked = false
+	}
+}
